@@ -101,6 +101,25 @@ theorem C05_reannounce_restarts (m : Mem) (hm : m.Inv) (req : AnnReq) (now T : I
   · right
     exact hex.2.mpr ⟨by rw [hv']; exact (hrole.2.2.2 hns hs).1, hT⟩
 
+/-- **The stores' own expiry loop** (D25): a tick at the tracker's clock `c` keeps a membership
+stamped `t` exactly when less than the lifetime has passed on that clock since the stamp -/
+theorem C05_loop_exact (m : Mem) (hm : m.Inv) (c life : Int) (ih : Bytes) (f : Fam) (pk : Bytes) (t : Int) :
+    (AMap.get ((m.loopTick c life).view ih f).seeders pk = some t ↔ AMap.get (m.view ih f).seeders pk = some t ∧ c - t < life) ∧
+    (AMap.get ((m.loopTick c life).view ih f).leechers pk = some t ↔ AMap.get (m.view ih f).leechers pk = some t ∧ c - t < life) := by
+  have h := C05_expire_exact m hm (loopCutoff c life) ih f pk t
+  have e : t > loopCutoff c life ↔ c - t < life := by unfold loopCutoff; omega
+  unfold Mem.loopTick
+  rw [h.1, h.2, e]; exact ⟨Iff.rfl, Iff.rfl⟩
+
+/-- … so a peer stays listed for its whole lifetime after its last announce, whatever ticks of the
+loop fall in between: announced at clock `now`, still there after a tick at any clock `c` with
+`c - now < life` -/
+theorem C05_loop_keeps_for_lifetime (m : Mem) (hm : m.Inv) (req : AnnReq) (now c life : Int) (hc : c - now < life) (hns : req.event ≠ .stopped) :
+    let m' := Logic.swarmInteraction (Logic.memOps now) m {} req
+    let v := (m'.loopTick c life).view req.infoHash req.peer.fam
+    AMap.get v.seeders (peerKey req.peer) = some now ∨ AMap.get v.leechers (peerKey req.peer) = some now :=
+  C05_reannounce_restarts m hm req now (loopCutoff c life) (by unfold loopCutoff; omega) hns
+
 /-- each per-swarm step of the pass (the unit that interleaves with other requests) removes only
 stale entries: whatever it keeps it had, and whatever it drops has `mtime ≤ cutoff` -/
 theorem C05_step_never_removes_fresh (sw : Swarm) (T : Int) (e : Bytes × Int) :
